@@ -146,7 +146,7 @@ class SimParallel:
         if self.return_as == "list":
             return list(gen)
         # generator modes: eager (default) or lazy consumption
-        lazy = bool(sim.tape.choose(2, "lazy")) if len(jobs) > 1 else False
+        lazy = bool(sim.tape.choose(2, "lazy|" + rec.site)) if len(jobs) > 1 else False
         rec.lazy = lazy
         if lazy:
             sim.stats["lazy_calls"] += 1
@@ -200,7 +200,7 @@ def _simulate(sim: Sim, rec: CallRecord, jobs, W, mode):
             return None, float((n - i) * 1000)
         if om == "rotate":
             return None, (1e6 if i == 0 else 0.0)
-        k = tape.choose(n_dur, "dur")
+        k = tape.choose(n_dur, "dur|" + rec.site)
         return k, float(sim.duration_choices[k])
 
     while n_completed < n:
@@ -218,7 +218,7 @@ def _simulate(sim: Sim, rec: CallRecord, jobs, W, mode):
             inflight += 1
         # start
         while free > 0 and queue:
-            k = tape.choose(len(queue), "pick") if sim.exec_shuffle else 0
+            k = tape.choose(len(queue), "pick|" + rec.site) if sim.exec_shuffle else 0
             i, payload = queue.pop(k)
             if k:
                 sim.stats["exec_order_permuted"] += 1
@@ -242,7 +242,7 @@ def _simulate(sim: Sim, rec: CallRecord, jobs, W, mode):
         ties = []
         while running and running[0][0] == t:
             ties.append(heapq.heappop(running))
-        k = tape.choose(len(ties), "tie")
+        k = tape.choose(len(ties), "tie|" + rec.site)
         if k:
             sim.stats["ties_broken"] += 1
         ev = ties.pop(k)
